@@ -73,12 +73,14 @@ Proof.
   unfold emin_transfer_ns, with_tentative_ns.
   destruct (pointwise_aggregates_fx fx eps2 1 cols A junk) as [| |count id st] eqn:E; try discriminate.
   apply pointwise_aggregates_fx_ok in E as [E _].
-  cbv zeta. cbn [fst snd]. intro H. injection H as <- <- <-.
-  exists count, id, st. split; [exact E|].
-  intros Hnt HwfA Hsq Hreg i j Hi Hj.
+  cbv zeta. set (PB := tentative_prolongation_qr 1 cols count id B q0). cbn [fst snd].
+  intro H. exists count, id, st. split; [exact E|].
+  intros Hnt HwfA Hsq Hreg. fold PB.
   destruct (min_aggregate_guard eps2 cols A junk count id st E) as (HL & _ & _).
-  apply (emin_formulas_hold S Sft Hadj nt A st _ Hnt HwfA Hsq Hreg); try assumption.
-  - rewrite (nrows_P S). exact HL.
-  - rewrite tentative_qr_is_oracle_form. apply tentative_ns_rows_sorted.
+  assert (HnP : nrows (fst PB) = nrows A) by (unfold PB; rewrite (nrows_P S); exact HL).
+  assert (HsP : forallb sorted_strict (rows (fst PB)) = true)
+    by (unfold PB; rewrite tentative_qr_is_oracle_form; apply tentative_ns_rows_sorted).
+  pose proof (emin_formulas_hold S Sft Hadj nt A st (fst PB) Hnt HwfA Hsq Hreg HnP HsP) as HF. cbv zeta in HF.
+  clearbody PB. injection H as <- <- _. exact HF.
 Qed.
 End Pipeline.
